@@ -8,6 +8,9 @@
 // modulus of (every one of) its coefficient(s) is below Tolerance / (number_of_other_terms + 1); a term that is not like any stored
 // one is inserted as it is.  The list must hold exactly the oracle's terms and evaluate to their sum - at a symbolic frequency, and
 // for resonant terms both off and exactly on the resonance.
+// NEAR=1 (two-particle terms only): the first pole of call k is P[q] + delta_k with SYMBOLIC |delta_k| <= 1e-9, i.e. like terms whose
+// poles agree within the 1e-8 tolerance without being equal; documented rule (TwoParticleGFPart.h: "statistical weight ... for
+// averaging"): the reduced term carries the ARITHMETIC MEAN of the poles of all terms merged into it.
 #include "verif.h"
 #include "pomerol/GreensFunctionPart.h"
 #include "pomerol/SusceptibilityPart.h"
@@ -29,6 +32,12 @@
 #ifndef NADD
 #define NADD 3
 #endif
+#ifndef NEAR
+#define NEAR 0
+#endif
+#if NEAR && (KIND == 0 || KIND == 3)
+#error "NEAR is defined for the two-particle terms only (single-particle terms keep the pole of the first term)"
+#endif
 using namespace Pomerol;
 using namespace verif;
 static double mabs(double v) { return v < 0 ? -v : v; }
@@ -39,6 +48,8 @@ extern "C" void h_main() {
     static const char* const cn[4] = {"c0", "c1", "c2", "c3"}; static const char* const dn[4] = {"d0", "d1", "d2", "d3"};
     static const char* const wn[4] = {"p0", "p1", "p2", "p3"};
     double sum[2] = {0, 0}, sum2[2] = {0, 0}; bool present[2] = {false, false};
+    double psum[2] = {0, 0}; int pcount[2] = {0, 0};   // NEAR: running sum / number of the first poles merged into the stored term
+    static const char* const en[4] = {"e0", "e1", "e2", "e3"};
 #if KIND == 0
     typedef GreensFunctionPart::Term T; const double TOL = 1e-8;
     TermList<T> L(T::Compare(1e-8), T::IsNegligible(TOL));
@@ -61,10 +72,17 @@ extern "C" void h_main() {
 #else
         double d = 0;
 #endif
+#if NEAR
+        double delta = sym_real(en[k]);
+        assume(mabs(delta) <= 1e-9);
+#else
+        double delta = 0;
+#endif
+        const double pole = P[q] + delta;
         // ---- oracle
-        if (!present[q]) { present[q] = true; sum[q] = c; sum2[q] = d; }
+        if (!present[q]) { present[q] = true; sum[q] = c; sum2[q] = d; psum[q] = pole; pcount[q] = 1; }
         else {
-            sum[q] += c; sum2[q] += d;
+            sum[q] += c; sum2[q] += d; psum[q] += pole; pcount[q] += 1;
             int others = present[1 - q] ? 1 : 0;
             bool negligible = mabs(sum[q]) < TOL / (others + 1);
 #if KIND == 2
@@ -75,16 +93,18 @@ extern "C" void h_main() {
         }
         // ---- real code
 #if KIND == 0 || KIND == 3
-        L.add_term(T(ComplexType(c, 0), P[q]));
+        L.add_term(T(ComplexType(c, 0), pole));
 #elif KIND == 1
-        { T t; t.Coeff = ComplexType(c, 0); t.Poles[0] = P[q]; t.Poles[1] = Q2; t.Poles[2] = Q3; t.isz4 = false; t.Weight = 1; L.add_term(t); }
+        { T t; t.Coeff = ComplexType(c, 0); t.Poles[0] = pole; t.Poles[1] = Q2; t.Poles[2] = Q3; t.isz4 = false; t.Weight = 1; L.add_term(t); }
 #else
-        { T t; t.ResCoeff = ComplexType(c, 0); t.NonResCoeff = ComplexType(d, 0); t.Poles[0] = P[q]; t.Poles[1] = Q2; t.Poles[2] = Q3; t.isz1z2 = true; t.Weight = 1; L.add_term(t); }
+        { T t; t.ResCoeff = ComplexType(c, 0); t.NonResCoeff = ComplexType(d, 0); t.Poles[0] = pole; t.Poles[1] = Q2; t.Poles[2] = Q3; t.isz1z2 = true; t.Weight = 1; L.add_term(t); }
 #endif
     }
     int expect = (present[0] ? 1 : 0) + (present[1] ? 1 : 0);
     check((int)L.size() == expect, "the list holds one term per pole whose reduced coefficient is not negligible by the documented rule");
     if (expect == 2) reach("two_terms");
+    double PM[2];       // pole of the reduced term: the mean of the merged poles (== P[q] unless NEAR)
+    for (int q = 0; q < 2; ++q) PM[q] = present[q] ? psum[q] / pcount[q] : P[q];
     double x = sym_real("zre"), y = sym_real("zim");
     assume(y != 0);
     ComplexType z1(x, y);
@@ -99,7 +119,7 @@ extern "C" void h_main() {
     ComplexType z2(0.5, 1.5), z3(-0.25, 2.0);
     ComplexType v = L(z1, z2, z3);
     ComplexType ref(0, 0);
-    for (int q = 0; q < 2; ++q) if (present[q]) ref += ComplexType(sum[q], 0) / ((z1 - P[q]) * (z2 - Q2) * (z3 - Q3));
+    for (int q = 0; q < 2; ++q) if (present[q]) ref += ComplexType(sum[q], 0) / ((z1 - PM[q]) * (z2 - Q2) * (z3 - Q3));
     check_eq(v.real(), ref.real(), "term list value == sum of reduced terms (real part)");
     check_eq(v.imag(), ref.imag(), "term list value == sum of reduced terms (imaginary part)");
 #else
@@ -108,17 +128,17 @@ extern "C" void h_main() {
         ComplexType z2(0.5, 3.0 - y), z3(-0.25, 2.0);
         ComplexType v = L(z1, z2, z3, 1e-8);
         ComplexType ref(0, 0);
-        for (int q = 0; q < 2; ++q) if (present[q]) ref += ComplexType(sum2[q], 0) / ((z1 + z2 - P[q] - Q2) * (z1 - P[q]) * (z3 - Q3));
+        for (int q = 0; q < 2; ++q) if (present[q]) ref += ComplexType(sum2[q], 0) / ((z1 + z2 - PM[q] - Q2) * (z1 - PM[q]) * (z3 - Q3));
         check_eq(v.real(), ref.real(), "resonant term list off resonance == sum of reduced terms (real part)");
         check_eq(v.imag(), ref.imag(), "resonant term list off resonance == sum of reduced terms (imaginary part)");
     }
     // exactly on the resonance of pole 0: z1 + z2 == P[0] + Q2   (pole 1 is then off resonance by P[0] - P[1])
     {
-        ComplexType z2(P[0] + Q2 - x, -y), z3(-0.25, 2.0);
+        ComplexType z2(PM[0] + Q2 - x, -y), z3(-0.25, 2.0);
         ComplexType v = L(z1, z2, z3, 1e-8);
         ComplexType ref(0, 0);
-        if (present[0]) ref += ComplexType(sum[0], 0) / ((z1 - P[0]) * (z3 - Q3));
-        if (present[1]) ref += ComplexType(sum2[1], 0) / ((z1 + z2 - P[1] - Q2) * (z1 - P[1]) * (z3 - Q3));
+        if (present[0]) ref += ComplexType(sum[0], 0) / ((z1 - PM[0]) * (z3 - Q3));
+        if (present[1]) ref += ComplexType(sum2[1], 0) / ((z1 + z2 - PM[1] - Q2) * (z1 - PM[1]) * (z3 - Q3));
         check_eq(v.real(), ref.real(), "resonant term list on resonance == sum of reduced terms (real part)");
         check_eq(v.imag(), ref.imag(), "resonant term list on resonance == sum of reduced terms (imaginary part)");
     }
